@@ -81,7 +81,7 @@ func SchedulePromises(config *system.Config, tags map[string]string) gocoro.Coro
 			commands[i] = &t_aio.CreatePromiseCommand{
 				Id:        id,
 				Param:     s.PromiseParam,
-				Timeout:   s.PromiseTimeout + s.NextRunTime,
+				Timeout:   util.AddSat(s.NextRunTime, s.PromiseTimeout),
 				Tags:      s.PromiseTags,
 				CreatedOn: c.Time(),
 			}
